@@ -1,10 +1,14 @@
-(* Model/DokGetitem.v — DOK.__getitem__ (sparse/numba_backend/_dok.py), with the same branch structure:
-     a key made of iterables only (also the empty key) takes _fancy_getitem: NotImplementedError unless
-       there is one index sequence per axis, IndexError unless they have one length, then
-       new_data[i] = data[k_i] for the rows k_i (the i-th tuple of zip over the key) PRESENT in the dict (no wrapping of
-       negatives, no bounds check; booleans hash as 0/1), result of shape (len(key[0]),);
-     every other key: self.asformat("coo")[key] (COO.from_iter: Model/Convert.v; the COO getitem:
-       Model/CooIndex.v), a sparse result is converted back with DOK.from_coo.
+(* Model/DokGetitem.v — DOK.__getitem__ (sparse/numba_backend/_dok.py, after fixes e6d97fc / e0a1c30 / b72190a),
+   with the same branch structure:
+     a NON-EMPTY key made of index sequences only: NotImplementedError unless there is one sequence per axis;
+       then _fancy_key = check_index on every (sequence, extent), sanitize_index, posify_index — the helpers of
+       normalize_index, in the same order, which is all normalize_index does to such a key (no Ellipsis, nothing to
+       pad, replace_none / clip_slice leave arrays alone): IndexError for an entry out of bounds or a mask of the
+       wrong length, masks become positions, negatives wrap; IndexError unless the sequences have one length; then
+       _fancy_getitem: new_data[i] = data[k_i] for the rows k_i (the i-th tuple of zip over the key) PRESENT in the
+       dict, result of shape (len(key[0]),);
+     every other key, the empty key () included: self.asformat("coo")[key] (COO.from_iter: Model/Convert.v — 0-d
+       DOKs included; the COO getitem: Model/CooIndex.v), a sparse result is converted back with DOK.from_coo.
    Definitions only. *)
 From Coq Require Import ZArith List Bool.
 From Verif Require Import Py Shape COO GCXS Convert NpIndex CooIndex.
@@ -25,46 +29,40 @@ Section DG.
     | (k', v) :: r => if idx_eqb k' k then Some v else dict_get r k
     end.
 
-  Definition arr_of (e : ientry) : option (list Z) :=
-    match e with
-    | IArr l => Some l
-    | IBArr b => Some (map (fun x : bool => if x then 1 else 0) b)
-    | _ => None
-    end.
+  (* all(isinstance(k, Iterable) for k in key), on a non-empty key *)
+  Definition fancy_key (ix : index) : bool :=
+    match ix with [] => false | _ => forallb is_iarr ix end.
 
-  Fixpoint all_arrays_of (ix : index) : option (list (list Z)) :=
-    match ix with
-    | [] => Some []
-    | e :: r => match arr_of e, all_arrays_of r with Some l, Some ls => Some (l :: ls) | _, _ => None end
-    end.
+  (* the index sequences after _fancy_key *)
+  Definition narr_lists (nix : list nentry) : list (list Z) :=
+    flat_map (fun e => match e with NArr l => [l] | _ => [] end) nix.
 
   Definition zip_key (ls : list (list Z)) (i : nat) : idx := map (fun l => nth i l 0) ls.
 
-  Definition dok_fancy (sh : shape) (items : list (idx * V)) (fill : V) (ls : list (list Z)) : res dres :=
-    if negb (length ls =? length sh)%nat then Raise NotImplementedError
-    else match ls with
-         | [] => Raise IndexError                        (* len(key[0]) on the empty key *)
-         | l0 :: _ =>
-           if negb (forallb (fun l => (length l =? length l0)%nat) ls) then Raise IndexError
-           else Ok (DArr [Z.of_nat (length l0)]
-                         (flat_map (fun i => match dict_get items (zip_key ls i) with
-                                             | Some v => [([Z.of_nat i], v)]
-                                             | None => []
-                                             end) (seq 0 (length l0)))
-                         fill)
-         end.
+  Definition dok_fancy (items : list (idx * V)) (fill : V) (ls : list (list Z)) : res dres :=
+    match ls with
+    | [] => Raise IndexError
+    | l0 :: _ =>
+      if negb (forallb (fun l => (length l =? length l0)%nat) ls) then Raise IndexError
+      else Ok (DArr [Z.of_nat (length l0)]
+                    (flat_map (fun i => match dict_get items (zip_key ls i) with
+                                        | Some v => [([Z.of_nat i], v)]
+                                        | None => []
+                                        end) (seq 0 (length l0)))
+                    fill)
+    end.
 
   Definition dok_getitem (kf : nat -> nat) (sh : shape) (items : list (idx * V)) (fill : V) (ix : index) : res dres :=
-    match all_arrays_of ix with
-    | Some ls => dok_fancy sh items fill ls
-    | None =>
+    if fancy_key ix then
+      if negb (length ix =? length sh)%nat then Raise NotImplementedError
+      else nix <- normalize_index ix sh ;; dok_fancy items fill (narr_lists nix)
+    else
       c <- from_iter_pairs veqb add sh items fill ;;
       r <- getitem kf c ix ;;
       match r with
       | GScalar v => Ok (DScalar v)
       | GArr y => Ok (DArr (c_shape y) (dok_items_of_coo y) (c_fill y))
-      end
-    end.
+      end.
 End DG.
 
 Arguments DScalar {V}.
